@@ -174,6 +174,14 @@ struct Case
     }
 };
 static inline void count(const char *name, long long n = 1) { g_w.counters[name] += n; }
+// Coverage item: a distinct abstract behaviour observed by a monitor (unioned over all workers by the
+// supervisor; when a harness emits such items they define distinct_nontrivial instead of per-case signatures).
+static std::set<uint64_t> g_cover_seen;
+static inline void cover(const std::string &item)
+{
+    uint64_t h = fnv1a(item);
+    if(g_cover_seen.insert(h).second) g_w.line(vfmt("G %016llx", (unsigned long long)h));
+}
 
 // ------------------------------------------------------------------------------------------
 // API shim: every call into the library goes through API(name, expr). An exception that leaves
